@@ -45,8 +45,13 @@ pub enum HV {
     /// the valid value with one letter replaced by a non-ASCII character that Unicode case folding maps onto it
     /// (KELVIN SIGN U+212A for k/K, LATIN SMALL LETTER LONG S U+017F for s/S): equal only under a Unicode-aware comparison
     UnicodeFold,
+    /// another well-formed member of the same family of values: the previous protocol revision / WebSocket version, another
+    /// upgrade token, another connection option, another (valid) key, another pre-shared key of the same length
+    SiblingOlder,
+    /// ... and the next one (penguin-v8, version 14, ...), in changed letter case where letters exist
+    SiblingNewer,
 }
-pub const HVS: [HV; 13] = [HV::Exact, HV::Absent, HV::CaseChanged, HV::Prefix, HV::Suffix, HV::Padded, HV::TokenList, HV::Empty, HV::DupValidValid, HV::DupValidInvalid, HV::DupInvalidValid, HV::Other, HV::UnicodeFold];
+pub const HVS: [HV; 15] = [HV::Exact, HV::Absent, HV::CaseChanged, HV::Prefix, HV::Suffix, HV::Padded, HV::TokenList, HV::Empty, HV::DupValidValid, HV::DupValidInvalid, HV::DupInvalidValid, HV::Other, HV::UnicodeFold, HV::SiblingOlder, HV::SiblingNewer];
 
 fn case_changed(s: &str) -> String {
     s.chars().enumerate().map(|(i, c)| if i % 2 == 0 { c.to_ascii_uppercase() } else { c.to_ascii_lowercase() }).collect()
@@ -70,6 +75,26 @@ pub fn values(h: usize, v: HV, cfg: Cfg) -> Vec<String> {
         HV::DupValidInvalid => vec![ok, bad],
         HV::DupInvalidValid => vec![bad, ok],
         HV::Other => vec!["something-else".to_string()],
+        HV::SiblingOlder | HV::SiblingNewer => {
+            let older = v == HV::SiblingOlder;
+            vec![match h {
+                0 => if older { "keep-alive" } else { "Close" }.to_string(),
+                1 => if older { "h2c" } else { "WebSocket/13" }.to_string(),
+                2 => if older { "8" } else { "14" }.to_string(),
+                3 => if older { "penguin-v6" } else { "Penguin-V8" }.to_string(),
+                4 => if older { "AQIDBAUGBwgJCgsMDQ4PEA==" } else { "x3JJHMbDL1EzLkh9GBhXDw==" }.to_string(),
+                _ => {
+                    // same length, last octet differs
+                    let mut b = ok.clone().into_bytes();
+                    let l = b.len() - 1;
+                    b[l] = if older { b[l].wrapping_sub(1) } else { b[l].wrapping_add(1) };
+                    match String::from_utf8(b) {
+                        Ok(s) => s,
+                        Err(_) => format!("{ok}."),
+                    }
+                }
+            }]
+        }
         HV::UnicodeFold => {
             let folded = if let Some(i) = ok.find(['k', 'K']) {
                 format!("{}\u{212A}{}", &ok[..i], &ok[i + 1..])
